@@ -12,6 +12,22 @@ import traceback
 from . import common
 
 
+def _sweep_scratch(max_age_s=1800):
+    """parquet datasets written for symbolic sources live under .work/pq for the duration of one program; drop the ones left by earlier runs
+    (older than half an hour, so that a check running concurrently keeps its files)"""
+    import shutil
+
+    base = os.path.join(common.WORK, "pq")
+    try:
+        now = time.time()
+        for name in os.listdir(base):
+            path = os.path.join(base, name)
+            if now - os.path.getmtime(path) > max_age_s:
+                shutil.rmtree(path, ignore_errors=True)
+    except OSError:
+        pass
+
+
 def main(argv=None):
     ap = argparse.ArgumentParser()
     ap.add_argument("prop")
@@ -20,6 +36,7 @@ def main(argv=None):
     ap.add_argument("--only", default=None, help="substring filter on obligation names (debugging)")
     args = ap.parse_args(argv)
     t0 = time.time()
+    _sweep_scratch()
     if args.replay:
         payload = json.load(open(args.replay))
         rp = payload.get("replay") or {}
